@@ -64,6 +64,40 @@ def gen_specs(run):
             specs.append({"id": f"c07-{sid}", "group": "ristretto" if (sid % 5 == 0 and b * m <= 64) else "fm", "members": [mem], "verifies": verifies,
                           "_role": "verify", "_tags": tags, "_conf": [b, m, T, j], "with_gens": False})
             sid += 1
+    # (c) batches whose members carry different promise patterns (Some / None at the same position in different members, different
+    #     aggregation factors): every member must be judged under its own promise vector
+    nb = 6 if quick else 40
+    for bi in range(nb):
+        b = rng.choice([2, 4, 8])
+        T = rng.choice([1, 2])
+        shape = rng.choice([[1, 1], [1, 1, 1], [2, 2], [2, 1], [1, 2], [2, 1, 2], [4, 2, 4]])
+        mems = []
+        for i, mm in enumerate(shape):
+            # alternate: non-zero promises everywhere / no promises / zero promises / random
+            kinds = [["rand"] * mm, ["none"] * mm, ["zero"] * mm, None][(i + bi) % 4]
+            mem = gen.mk_member(rng, b, mm, cap=mm, T=T, pkinds=kinds, vkinds=["tophalf"] * mm)
+            if kinds and kinds[0] == "rand":
+                for j in range(mm):       # make sure the promise is non-zero
+                    v = int(mem["commit"][j]["v"])
+                    mem["promises"][j] = str(max(1, min(v, int(mem["promises"][j] or 1))))
+            mems.append(mem)
+        vm = [gen.vmember(mems[i], i) for i in range(len(shape))]
+        verifies = [{"mode": "VerifyOnly", "vmembers": vm}, {"mode": "VerifyOnly", "vmembers": list(reversed(vm))}]
+        # one member verified under the promise vector of its neighbour (same m) must be refused unless the vectors are value-wise equal
+        tags = [("honest", True), ("honest reversed", True)]
+        for i in range(len(shape)):
+            j = (i + 1) % len(shape)
+            if shape[i] == shape[j]:
+                st = gen.stmt_of(mems[i])
+                st["promises"] = list(mems[j]["promises"])
+                same = [int(x or 0) for x in st["promises"]] == [int(x or 0) for x in mems[i]["promises"]]
+                fits = all(int(x or 0) < (1 << b) for x in st["promises"])
+                vm2 = list(vm)
+                vm2[i] = {"proof": i, "stmt": st, "ctx": mems[i]["ctx"]}
+                verifies.append({"mode": "VerifyOnly", "vmembers": vm2})
+                tags.append((f"member {i} under the promises of member {j}", same and fits))
+        specs.append({"id": f"c07-batch-{bi}", "group": "fm", "members": mems, "verifies": verifies, "_role": "batch", "_tags": tags,
+                      "_conf": [b, max(shape), T, 0], "_shape": shape, "with_gens": False})
     return specs
 
 
@@ -90,6 +124,20 @@ def oracle(run, s, o):
             if not stmt_ok and vr == "ok":
                 run.violation(f"verifier accepted a promise that does not fit in the bit length ({tag}, bits={b})", rp)
         return
+    if s["_role"] == "batch":
+        if any(m_.get("prove") != "ok" for m_ in o["members"]):
+            run.violation(f"prover failed in a mixed-promise batch: {[m_.get('prove') for m_ in o['members']]}", rp)
+            return
+        pats = ["".join("N" if x is None else ("0" if x == "0" else "S") for x in m_["promises"]) for m_ in s["members"]]
+        for vi, ((tag, want_ok), vo) in enumerate(zip(s["_tags"], o["verifies"])):
+            res = vo["result"]
+            run.count(["c07b", b, tuple(s["_shape"]), tuple(pats), tag.split(" ")[0], res.split(":")[0]], {"bits": b, "shape": s["_shape"], "promise patterns": pats, "case": tag, "result": res[:60]})
+            run.bump("batch:" + tag.split(" ")[0])
+            if want_ok and res != "ok":
+                run.violation(f"batch of valid proofs with promise patterns {pats} refused ({tag}): {res[:80]}", dict(rp, verify=vi))
+            if not want_ok and res == "ok":
+                run.violation(f"batch accepted although {tag} (patterns {pats})", dict(rp, verify=vi))
+        return
     if mo.get("prove") != "ok" or o["verifies"][0]["result"] != "ok":
         run.violation(f"base case not accepted: {mo.get('prove')} / {o['verifies'][0]['result'][:60]}", rp)
         return
@@ -114,7 +162,8 @@ def run(run: Run):
     return run.finish(
         "proof",
         "per configuration and position j: promise values {0, v, v-1, v+1, 2^n-1, 2^n, u64::MAX, None} at proving time, and every single substitution "
-        "{0, p+-1, v, v+1, 2^n-1, 2^n, u64::MAX, None, random} (and one at another position) at verification time under an accepted proof; verdicts compared "
+        "{0, p+-1, v, v+1, 2^n-1, 2^n, u64::MAX, None, random} (and one at another position) at verification time under an accepted proof; batches whose "
+        "members carry different promise patterns (Some / None / zero at the same position, mixed aggregation), forwards, reversed and with promise vectors exchanged between members; verdicts compared "
         "with the value-wise equality of promise vectors; each verification compared with the Coq model (H scalar, commitments, transcript); "
         "distinct by (bits, m, T, position class, promise kind, outcome)",
         [],
